@@ -614,6 +614,34 @@ theorem concurrent_commit_witness : ¬ ConcurrentCommitsValid drvCrypto := by
 example : (commitsSeq drvCrypto twoWs [(0, 5), (1, 6)]).2 = 2 ∧
     verifyChain drvCrypto cfg0.registry (commitsSeq drvCrypto twoWs [(0, 5), (1, 6)]).1.chain = none := by decide +kernel
 
+/-- two workspaces writing the SAME key, both still active -/
+def sameKeyWs : Node := runOps drvCrypto (initNode drvCrypto cfg0 0) [.begin, .put 0 1 10, .begin, .put 1 1 11]
+
+/-- thread 0 runs prepare/snapshot/apply, then thread 1 runs its whole commit, then thread 0 finishes -/
+def orderSched : List Nat := [0, 0, 0, 1, 1, 1, 1, 1, 1, 0, 0, 0]
+
+def orderRun : Node × List Local := runSched drvCrypto orderSched sameKeyWs ([0, 1].map fun w => Local.init w 5)
+
+/-- WITNESS (second symptom of the same defect, observed on the real code as
+    `tensor_chain.commit/concurrent_store_diverges_from_chain`): both overlapping commits return `Ok`, the chain has
+    two new blocks and verifies — but the writes were applied to the store in the order 0,1 and the blocks were
+    appended in the order 1,0, so the store holds `d1 = 11` while replaying the chain gives `d1 = 10`:
+    the sequential-history invariant `DataInv` fails. -/
+theorem concurrent_commit_order_witness :
+    (∀ l ∈ orderRun.2, l.pc = .done) ∧ orderRun.2.map (·.res) = [some (.ok 2), some (.ok 1)] ∧
+    orderRun.1.chain.height = 2 ∧ verifyChain drvCrypto orderRun.1.cfg.registry orderRun.1.chain = none ∧
+    sget orderRun.1.chain.store (.data 1) = some (.data 11) ∧
+    sget (applyTxs [] (chainTxs orderRun.1.chain.store orderRun.1.chain.height)) (.data 1) = some (.data 10) ∧
+    ¬ DataInv orderRun.1.chain := by
+  have h5 : sget orderRun.1.chain.store (.data 1) = some (.data 11) := by decide +kernel
+  have h6 : sget (applyTxs [] (chainTxs orderRun.1.chain.store orderRun.1.chain.height)) (.data 1) = some (.data 10) := by
+    decide +kernel
+  refine ⟨by decide +kernel, by decide +kernel, by decide +kernel, by decide +kernel, h5, h6, ?_⟩
+  intro h
+  have := h 1
+  rw [h5, h6] at this
+  cases this
+
 /-! ### rollback -/
 
 /-- WITNESS: `rollback` restores the WHOLE store to the workspace's checkpoint.  In the sequential history
@@ -633,6 +661,128 @@ theorem rollback_untouched_partial (n : Node) (w : Nat) (ws : Ws) (hws : findWs 
   split
   · rfl
   · simp [hsnap]
+
+/-! ### the sequential-history invariant; `built_chain_verifies` for commit-built chains -/
+
+/-- side conditions of one client call in a sequential history.  `commit`: the clock (`SystemTime::now`, the
+    block timestamp) has not gone back since the tip block.  `rollback`: the workspace's checkpoint is still the
+    current store, i.e. nothing was committed since its `begin` (otherwise: `rollback_wipes_commit_witness`).
+    Everything else is unconditional. -/
+def OpOk (n : Node) : Op → Prop
+  | .commit _ ts =>
+    match blockAt n.chain.store n.chain.height with
+    | some t => t.header.timestamp ≤ ts
+    | none => True
+  | .rollback w =>
+    match findWs n.wss w with
+    | some ws => ws.state = .committed ∨ ws.snap = n.chain.store
+    | none => True
+  | _ => True
+
+instance (n : Node) (op : Op) : Decidable (OpOk n op) := by
+  cases op <;> simp only [OpOk] <;> (try split) <;> infer_instance
+
+/-- node states reachable from `TensorChain::initialize` through ANY sequential history of client calls
+    (`begin` / `put` / `delete` / delta / `commit` / `rollback` over any number of workspaces, auto-merge or not) -/
+inductive SeqReach (C : Crypto) (cfg : Config) : Node → Prop where
+  | init (ts : Nat) : SeqReach C cfg (initNode C cfg ts)
+  | step (n : Node) (op : Op) : SeqReach C cfg n → OpOk n op → SeqReach C cfg (stepOp C n op)
+
+theorem commit_dataInv (C : Crypto) (n : Node) (w ts : Nat) (h : DataInv n.chain) : DataInv (commit C n w ts).1.chain := by
+  rcases commit_atomic C n w ts with ⟨b, ws, extra, _, hh, _, htx, _, hst⟩ | ⟨hc, _⟩
+  · have := dataInv_commit n.chain b (commit C n w ts).1.chain.tip h
+    rw [htx] at this
+    generalize (commit C n w ts).1.chain = cc at hh hst this ⊢
+    obtain ⟨st, hgt, tp⟩ := cc
+    simp only at hh hst this
+    subst hh hst
+    exact this
+  · rw [hc]; exact h
+
+/-- THE SEQUENTIAL-HISTORY INVARIANT.  After every sequential history (any length, any number of workspaces):
+    the configuration is unchanged, the chain invariant `Inv` holds (every block `1..=height` present, linked, its
+    `tx_root` matching, timestamps monotone, signed by a registered key; tip = hash of the last block) and the
+    store's data image is exactly the replay of the transactions of blocks `1..=height` in chain order. -/
+theorem sequential_history_invariant (C : Crypto) (cfg : Config) (hsc : SignCorrect C)
+    (hreg : ∀ r, cfg.registry = some r → regLookup r cfg.nodeId = some cfg.key) (n : Node) (h : SeqReach C cfg n) :
+    n.cfg = cfg ∧ Inv C cfg.registry n.chain ∧ DataInv n.chain := by
+  induction h with
+  | init ts => exact ⟨rfl, inv_init C _ _ _ _, dataInv_init C _ _⟩
+  | step n op _ hop ih =>
+    obtain ⟨hcfg, hinv, hdata⟩ := ih
+    cases op with
+    | begin => exact ⟨hcfg, hinv, hdata⟩
+    | put w k v =>
+      have : (addOp n w (.put k v)).1.cfg = n.cfg ∧ (addOp n w (.put k v)).1.chain = n.chain := by
+        unfold addOp; (repeat' split) <;> exact ⟨rfl, rfl⟩
+      simp only [stepOp, this.1, this.2]; exact ⟨hcfg, hinv, hdata⟩
+    | del w k =>
+      have : (addOp n w (.del k)).1.cfg = n.cfg ∧ (addOp n w (.del k)).1.chain = n.chain := by
+        unfold addOp; (repeat' split) <;> exact ⟨rfl, rfl⟩
+      simp only [stepOp, this.1, this.2]; exact ⟨hcfg, hinv, hdata⟩
+    | dir w d => exact ⟨hcfg, hinv, hdata⟩
+    | commit w ts =>
+      simp only [stepOp]
+      refine ⟨by rw [commit_cfg]; exact hcfg, ?_, commit_dataInv C n w ts hdata⟩
+      have := commit_inv C n w ts hsc (by rw [hcfg]; exact hreg) (by rw [hcfg]; exact hinv)
+        (by intro t ht; simp only [OpOk, ht] at hop; exact hop)
+      rw [hcfg] at this
+      exact this
+    | rollback w =>
+      simp only [stepOp]
+      unfold rollbackWs
+      cases hf : findWs n.wss w with
+      | none => exact ⟨hcfg, hinv, hdata⟩
+      | some ws =>
+        simp only [OpOk, hf] at hop
+        simp only
+        split
+        · exact ⟨hcfg, hinv, hdata⟩
+        · rename_i hst
+          have hs : ws.snap = n.chain.store := by
+            rcases hop with h | h
+            · exact absurd h hst
+            · exact h
+          have : ({ n.chain with store := ws.snap } : ChainSt) = n.chain := by rw [hs]
+          simp only [this]
+          exact ⟨hcfg, hinv, hdata⟩
+
+/-- `built_chain_verifies` for the chains the system itself builds: through the workspace commit path the two
+    checks `Chain::append` omits cannot fail (every block is signed by the node's registered key, also the one at
+    height 1; timestamps come from a clock that does not go back), so after EVERY sequential history
+    `verify_chain` returns `Ok`. -/
+theorem commit_built_chain_verifies (C : Crypto) (cfg : Config) (hsc : SignCorrect C)
+    (hreg : ∀ r, cfg.registry = some r → regLookup r cfg.nodeId = some cfg.key) (n : Node) (h : SeqReach C cfg n) :
+    verifyChain C n.cfg.registry n.chain = none := by
+  obtain ⟨hcfg, hinv, _⟩ := sequential_history_invariant C cfg hsc hreg n h
+  rw [hcfg]
+  exact verify_complete C _ _ hinv.ok
+
+example : SignCorrect drvCrypto := fun k m => ⟨by simp [drvCrypto], by simp [drvCrypto]⟩
+
+/-- every op list whose calls satisfy `OpOk` at the state they are issued in is a sequential history -/
+theorem seqReach_of_runOps (C : Crypto) (cfg : Config) :
+    ∀ (ops : List Op) (n : Node), SeqReach C cfg n → (∀ i (h : i < ops.length), OpOk (runOps C n (ops.take i)) ops[i]) →
+      SeqReach C cfg (runOps C n ops) := by
+  intro ops
+  induction ops with
+  | nil => intro n h _; exact h
+  | cons op ops ih =>
+    intro n h hok
+    simp only [runOps, List.foldl_cons]
+    refine ih _ (SeqReach.step n op h (by have := hok 0 (by simp); simpa [runOps, List.getElem_cons_zero] using this)) ?_
+    intro i hi
+    have := hok (i + 1) (by simp; omega)
+    simpa [runOps, List.getElem_cons_succ, List.take_succ_cons] using this
+
+/-- non-vacuity: a history with two workspaces, a fresh rollback and two commits is in `SeqReach`; it ends with
+    two blocks -/
+def exHistory : List Op := [.begin, .put 0 1 1, .begin, .rollback 1, .begin, .put 2 2 2, .commit 0 5, .commit 2 6]
+
+example : SeqReach drvCrypto cfg0 (runOps drvCrypto (initNode drvCrypto cfg0 0) exHistory) ∧
+    (runOps drvCrypto (initNode drvCrypto cfg0 0) exHistory).chain.height = 2 ∧
+    regLookup [([1], 1)] cfg0.nodeId = some cfg0.key :=
+  ⟨seqReach_of_runOps drvCrypto cfg0 exHistory _ (SeqReach.init 0) (by decide +kernel), by decide +kernel, by decide⟩
 
 /-! ## 4. replay is deterministic -/
 
